@@ -398,9 +398,16 @@ impl ListableStorageTraits for FilesystemStore {
                 let fs_path = entry.path();
                 let path = fs_path.file_name().unwrap();
                 if fs_path.is_dir() {
-                    prefixes.push(StorePrefix::new(
-                        prefix.as_str().to_string() + path.to_str().unwrap() + "/",
-                    )?);
+                    // A directory is only a prefix if a key exists beneath it (erasing keys leaves empty directories)
+                    let has_key = WalkDir::new(&fs_path)
+                        .into_iter()
+                        .filter_map(std::result::Result::ok)
+                        .any(|v| v.path().is_file());
+                    if has_key {
+                        prefixes.push(StorePrefix::new(
+                            prefix.as_str().to_string() + path.to_str().unwrap() + "/",
+                        )?);
+                    }
                 } else {
                     keys.push(StoreKey::new(
                         prefix.as_str().to_owned() + path.to_str().unwrap(),
